@@ -81,7 +81,7 @@ func pnAbstract(s string) pnURL {
 	if s == "" {
 		return pnURL{K: "none"}
 	}
-	if strings.HasPrefix(s, "javascript:") {
+	if strings.HasPrefix(strings.ToLower(s), "javascript:") {
 		return pnURL{K: "js"}
 	}
 	if m := rxPnGrid.FindStringSubmatch(s); m != nil {
@@ -211,7 +211,7 @@ func runPN(c Case, e *env) []Event {
 		case it.U.K == "empty":
 			parts = append(parts, fmt.Sprintf(`<a href="">%d</a>`, it.N))
 		case it.U.K == "js":
-			parts = append(parts, fmt.Sprintf(`<a href="javascript:go(1)">%d</a>`, it.N))
+			parts = append(parts, fmt.Sprintf(`<a href="%s">%d</a>`, pickS(r, "javascript:go(1)", "javascript:go(1)", "JavaScript:void(0)"), it.N))
 		default:
 			href := pnString(it.U, fam)
 			if r.Intn(2) == 0 {
